@@ -24,9 +24,16 @@ class Unknown(Exception):
 
 
 def strip_T(t):
-    while t.op == "attr" and t.args[1] == "T":
-        t = t.args[0]
-    return t
+    """.T, .transpose() and numpy.transpose(x) do not change which row a value belongs to (layout is R-C03-r's business)"""
+    while True:
+        if t.op == "attr" and t.args[1] == "T":
+            t = t.args[0]
+        elif t.op == "call" and tm.callee_name(t) == "numpy.transpose" and len(t.args[1]) == 1:
+            t = t.args[1][0]
+        elif t.op == "call" and tm.callee_name(t) == ".transpose" and not t.args[1]:
+            t = t.args[0].args[0]
+        else:
+            return t
 
 
 class Algebra:
